@@ -25,6 +25,7 @@ type QuorumCallData struct {
 func (c RawConfiguration) QuorumCall(ctx context.Context, d QuorumCallData) (resp protoreflect.ProtoMessage, err error) {
 	expectedReplies := len(c)
 	md := &ordering.Metadata{MessageID: c.getMsgID(), Method: d.Method}
+	vEmit("CallStart", 0, md.MessageID, "kind", "qc", "size", len(c), "ctx", ctx)
 
 	replyChan := make(chan response, expectedReplies)
 	for _, n := range c {
@@ -33,11 +34,15 @@ func (c RawConfiguration) QuorumCall(ctx context.Context, d QuorumCallData) (res
 			msg = d.PerNodeArgFn(d.Message, n.id)
 			if !msg.ProtoReflect().IsValid() {
 				expectedReplies--
+				vEmit("CallSkip", n.id, md.MessageID)
 				continue // don't send if no msg
 			}
 		}
+		vGate("CallEnqWait", n.id, md.MessageID)
 		n.channel.enqueue(request{ctx: ctx, msg: &Message{Metadata: md, Message: msg}}, replyChan, false)
+		vEmit("CallEnq", n.id, md.MessageID)
 	}
+	vEmit("CallIssued", 0, md.MessageID, "expected", expectedReplies)
 
 	var (
 		errs    []nodeError
@@ -50,16 +55,21 @@ func (c RawConfiguration) QuorumCall(ctx context.Context, d QuorumCallData) (res
 		case r := <-replyChan:
 			if r.err != nil {
 				errs = append(errs, nodeError{nodeID: r.nid, cause: r.err})
+				vEmit("CallRecv", r.nid, md.MessageID, "err", true, "nerr", len(errs), "nrep", len(replies))
 				break
 			}
 			replies[r.nid] = r.msg
+			vEmit("CallRecv", r.nid, md.MessageID, "err", false, "nerr", len(errs), "nrep", len(replies))
 			if resp, quorum = d.QuorumFunction(d.Message, replies); quorum {
+				vEmit("CallEnd", 0, md.MessageID, "out", "ok", "nerr", len(errs), "nrep", len(replies))
 				return resp, nil
 			}
 		case <-ctx.Done():
+			vEmit("CallEnd", 0, md.MessageID, "out", "ctx", "nerr", len(errs), "nrep", len(replies))
 			return resp, QuorumCallError{cause: ctx.Err(), errors: errs, replies: len(replies)}
 		}
 		if len(errs)+len(replies) == expectedReplies {
+			vEmit("CallEnd", 0, md.MessageID, "out", "incomplete", "nerr", len(errs), "nrep", len(replies))
 			return resp, QuorumCallError{cause: Incomplete, errors: errs, replies: len(replies)}
 		}
 	}
